@@ -1,0 +1,28 @@
+//go:build verif
+
+/*
+Copyright 2023- IBM Inc. All Rights Reserved.
+
+SPDX-License-Identifier: Apache-2.0
+*/
+
+package eval
+
+// Hooks for the deterministic-simulation harness under /verif. Compiled only with
+// `-tags verif`; with the tag off this file does not exist for the compiler.
+
+// NewPolicyEngineWithCacheSizeForVerif returns an empty PolicyEngine whose verdict cache
+// holds at most size entries (the library default hides the eviction path).
+func NewPolicyEngineWithCacheSizeForVerif(size int) *PolicyEngine {
+	pe := NewPolicyEngine()
+	pe.cache = newEvalCacheWithSize(size)
+	return pe
+}
+
+// VerifCacheStats returns the number of cache hits so far and the number of cached verdicts.
+func (pe *PolicyEngine) VerifCacheStats() (hits, keys int) {
+	if pe.cache == nil || pe.cache.cache == nil {
+		return 0, 0
+	}
+	return pe.cache.cacheHitsCount, pe.cache.cache.Len()
+}
